@@ -525,7 +525,9 @@ pub(crate) fn c06_run(rep: &mut Report, wf: &Wf, plan: &Plan, sched: &str, refer
     // --- blocking parse: nothing beyond the end tag consumed at return; payload intact
     rep.eval();
     let (src, shared) = Scripted::new(wf.bytes.clone(), plan.clone());
-    match catch(move || IppParser::new(IppReader::new(src)).parse()) {
+    // every other schedule builds the reader through its From impl and takes the payload out with into_payload()
+    let alt = sched.len() % 2 == 1;
+    match catch(move || if alt { IppParser::new(src).parse() } else { IppParser::new(IppReader::new(src)).parse() }) {
         Ok(Ok(mut resp)) => {
             let pos = shared.pos();
             if pos != wf.head_len {
@@ -533,7 +535,12 @@ pub(crate) fn c06_run(rep: &mut Report, wf: &Wf, plan: &Plan, sched: &str, refer
             }
             let mut m = mirror::from_ipp_head(resp.header(), resp.attributes());
             let mut rest = vec![];
-            let r = read_all_sync(resp.payload_mut(), &mut rest);
+            let r = if alt {
+                let mut p = resp.into_payload();
+                read_all_sync(&mut p, &mut rest)
+            } else {
+                read_all_sync(resp.payload_mut(), &mut rest)
+            };
             if r.is_err() || rest != payload {
                 let p = first_diff(&rest, payload);
                 viol(rep, "blocking-parse-payload", format!("payload {} bytes ({r:?}), expected {}; first difference at {p}", rest.len(), payload.len()));
